@@ -27,7 +27,9 @@ EXTENDS Integers, Sequences, FiniteSets, TLC
 
 CONSTANTS MaxNow,      \* last wall-clock second
           MaxActs,     \* actions other than Tick per behaviour
-          CfgSet
+          CfgSet,
+          ServerZeroRearms   \* FALSE: Client.Refresh(ExpireAt = 0) leaves nextExpire and the armed timer alone (the
+                             \* code today); TRUE: it clears nextExpire and re-arms (the proposed repair)
 
 P == 10          \* ping interval 1 s
 T == 4           \* pong timeout 0.4 s
@@ -250,7 +252,8 @@ ServerRefresh(mode) ==
                              /\ out' = Append(out, F("push_refresh", 0)) /\ UNCHANGED closing
        \* c.exp = 0; nextExpire and the armed timer stay as they are (as coded)
        [] mode = "zero"   -> /\ exp' = 0 /\ dl' = Inf
-                             /\ out' = Append(out, F("push_refresh", 0)) /\ UNCHANGED <<nX, tmr, closing>>
+                             /\ IF ServerZeroRearms THEN nX' = 0 /\ tmr' = Arm(0, nR, nP, nO) ELSE UNCHANGED <<nX, tmr>>
+                             /\ out' = Append(out, F("push_refresh", 0)) /\ UNCHANGED closing
        [] mode = "expired" -> /\ Spawn(Expired) /\ UNCHANGED <<exp, nX, tmr, dl, out>>
   /\ UNCHANGED <<cfg, now, status, auth, unusable, nR, nP, nO, lp, sub, sdl, owed, cb>>
 
